@@ -538,6 +538,17 @@ func runCURSORCLONE(c *Ctx) {
 		}
 		args := ci.Common().Args
 		recvOK := ir.ResolveCell(args[0]) == ssa.Value(nm)
+		if !recvOK {
+			// the clone reached through the new cursor's own field (cursor := &Cursor{m: &clone}; cursor.m.load(…)):
+			// that field holds the clone (checked below for every store into a Cursor.m)
+			if ld, ok := args[0].(*ssa.UnOp); ok && ld.Op == token.MUL {
+				if fa, ok := ld.X.(*ssa.FieldAddr); ok && ir.IsPtrToNamed(fa.X.Type(), "Cursor") && ir.FieldName(fa.X.Type(), fa.Field) == "m" {
+					if _, fresh := ir.ResolveCell(fa.X).(*ssa.Alloc); fresh {
+						recvOK = true
+					}
+				}
+			}
+		}
 		x, isRoot := rootLoad(args[len(args)-1])
 		argOK := isRoot && ir.ResolveCell(x) == ssa.Value(nm)
 		if recvOK && argOK {
@@ -1764,7 +1775,16 @@ func runGROWCHECK(c *Ctx) {
 	n := 0
 	for _, ci := range CallsOf(ins) {
 		call, ok := ci.(*ssa.Call)
-		if !ok || !inCycle(call.Block()) || len(call.Call.Args) == 0 || !isNodePtr(call.Call.Args[0].Type()) {
+		if !ok || !inCycle(call.Block()) {
+			continue
+		}
+		var recv ssa.Value
+		for _, a := range call.Call.Args {
+			if isNodePtr(a.Type()) && recv == nil {
+				recv = a // the node the test looks at (the receiver, or the argument of a Mast method)
+			}
+		}
+		if recv == nil {
 			continue
 		}
 		res := call.Call.Signature().Results()
@@ -1775,7 +1795,6 @@ func runGROWCHECK(c *Ctx) {
 			continue
 		}
 		n++
-		recv := call.Call.Args[0]
 		// the installing call that dominates this test
 		var install ssa.CallInstruction
 		var pathArg ssa.Value
